@@ -189,6 +189,9 @@ func (prop) Run(line string) core.Outcome {
 	if len(f) == 0 {
 		return core.Outcome{Impl: "bad-op"}
 	}
+	if o, ok := runVia(f); ok {
+		return o
+	}
 	switch {
 	case f[0] == "host" && len(f) == 3:
 		l, e1 := parseList(f[1])
@@ -401,6 +404,26 @@ func runHost(line string, l []string, h string) core.Outcome {
 	fail := func(class, what string) {
 		if len(o.Failures) < 4 {
 			o.Failures = append(o.Failures, core.Failure{Class: class, What: what})
+		}
+	}
+	// ---- what the fast path relies on: after Provision (idna.ToASCII) every entry is ASCII,
+	// so ToLower-equality and EqualFold agree on it for ASCII request hosts
+	{
+		m := make(caddyhttp.MatchHost, len(l))
+		copy(m, l)
+		if err := m.Provision(caddy.Context{}); err == nil {
+			for i, e := range m {
+				if !isASCII(e) {
+					fail("host-provision-left-nonascii-entry", fmt.Sprintf("entry %q is %q after Provision (not ASCII)", l[i], e))
+					break
+				}
+			}
+		}
+		for _, e := range l {
+			if !isASCII(e) {
+				o.Tags = append(o.Tags, "host:nonascii-entry")
+				break
+			}
 		}
 	}
 	// class suffix: the one known residual concerns U+017F (long s) and U+0130 (dotted capital I),
